@@ -1,8 +1,8 @@
 package main
 
 // Engine "refresh" (C18, C12): histories on ONE discovery.Hosts object whose file changes under it.
-// Operations: W (the file is replaced: content, modification time), A (time passes: VerifAdvance),
-// L (LookupHost).  The model is Model/Refresh.v instantiated with the hosts parser; the theorem
+// Operations: W (the file is replaced: content, modification time), R / B (the file is moved away / moved back
+// unchanged), A (time passes: VerifAdvance), L (LookupHost).  The model is Model/Refresh.v instantiated with the hosts parser; the theorem
 // behind it is table_catches_up (Proofs/RefreshFacts.v).
 //   rfr <id> <ipmap> <op;op;...> => <out;out;...>      (one out per L: addresses, or -)
 
@@ -83,10 +83,25 @@ func refreshEngine(args []string) error {
 		}
 		write()
 		t0 := time.Now()
+		removed := false
+		away := hf + ".away"
+		_ = os.Remove(away)
 		for i := r.rng(4, 20); i > 0; i-- {
 			switch x := r.intn(10); {
+			case x < 2 && h%4 == 1 && i%2 == 0:
+				// the file disappears for a while (an editor or a package upgrade moving it aside) and comes back as
+				// it was, stamps included: what the table answers afterwards is still what the file says
+				if removed {
+					_ = os.Rename(away, hf)
+					ops = append(ops, "B")
+				} else {
+					_ = os.Rename(hf, away)
+					ops = append(ops, "R")
+				}
+				removed = !removed
 			case x < 2:
 				write()
+				removed = false
 			case x < 5:
 				ms := []int{1000, 2000, 2500, 4000, 6000, 60000, 5000}[r.intn(7)]
 				hosts.VerifAdvance(time.Duration(ms) * time.Millisecond)
